@@ -44,7 +44,7 @@ class VCtx(Ctx):
             c.implements = d.get('implements', [])
             self.contracts[k] = c
 
-    def add_spec(self, name, params, ret, body, depth=2, engine=None):
+    def add_spec(self, name, params, ret, body, depth=8, engine=None):
         """params: list of (name, sortname). body: expression text or None (fully uninterpreted)."""
         sorts = [SORTS[s] for _, s in params]
         decl = z3.Function('spec!' + name, *sorts, SORTS[ret])
@@ -122,6 +122,31 @@ def ann_text(arg):
     if isinstance(a, ast.Constant) and isinstance(a.value, str):
         return a.value
     return ast.unparse(a)
+
+
+def verify_lemma(ctx, lem):
+    """A lemma: free variables, requires, ensures. Proved like a function with an empty body."""
+    eng = ctx.engine
+    st = State()
+    st.pc.extend(ctx.axioms)
+    for (n, srt) in lem['vars']:
+        st.env[n] = make_param(eng, st, n, None, srt)
+    fr = Frame(_SpecModule(), 'lemma:' + lem['name'], None, None)
+    fr.spec_only = True
+    fr.entry = st.fork()
+    for cl in lem.get('requires', []):
+        st.assume(eng.ev_clause(cl, st, fr))
+    n0 = len(ctx.obligations)
+    for i, cl in enumerate(lem['ensures']):
+        f = eng.ev_clause(cl, st, fr)
+        eng.prove(st, fr, 'lemma', f, None, clause='%s ensures[%d]: %s' % (lem['name'], i, cl),
+                  name='lemma:%s[%d]' % (lem['name'], i))
+    for ob in ctx.obligations[n0:]:
+        ob.min_rounds = lem.get('rounds', 2)
+    rep = dict(function='lemma:' + lem['name'], hash=None, paths=1, obligations=len(ctx.obligations) - n0,
+               pre_satisfiable=smt.quick_sat(st.pc, 5000), canary_refuted=True, out_of_reach=None)
+    ctx.fun_reports.append(rep)
+    return rep
 
 
 def default_modifies(node, c):
@@ -292,6 +317,47 @@ def split_cases(ctx, ob, rounds, nosum=False):
     return out
 
 
+HINT_FILE = os.path.join(os.path.dirname(os.path.abspath(__file__)), 'strategy_hints.json')
+
+
+def load_strategy_hints():
+    try:
+        import json
+        return json.load(open(HINT_FILE))
+    except Exception:
+        return {}
+
+
+def save_strategy_hints(new):
+    """Speed only: remembers which proof strategy discharged an obligation (never a verdict)."""
+    if not new or os.environ.get('VF_NO_HINT_UPDATE'):
+        return
+    import json
+    cur = load_strategy_hints()
+    changed = False
+    for k, v in new.items():
+        if cur.get(k) != v:
+            cur[k] = v
+            changed = True
+    if changed:
+        try:
+            json.dump(cur, open(HINT_FILE, 'w'), indent=0, sort_keys=True)
+        except Exception:
+            pass
+
+
+def obligation_keys(obligations):
+    """Stable key per obligation: name | clause | ordinal among equals."""
+    seen = {}
+    out = {}
+    for o in obligations:
+        base = '%s|%s' % (o.name, (o.clause or '')[:120])
+        n = seen.get(base, 0)
+        seen[base] = n + 1
+        out[id(o)] = '%s|%d' % (base, n)
+    return out
+
+
 def _job(args):
     (oid, strat, part, nparts, text, timeout, backend) = args
     st_, secs, be = smt.solve_text((text, timeout, backend))
@@ -348,79 +414,98 @@ def discharge(ctx, obligations=None, timeout=20, procs=None, backends=('z3py', '
                         ob.status, ob.backend = 'discharged', '%s/%s' % (be, strat)
                         nxt.discard(oid)
                 todo = [o for o in todo if id(o) in nxt]
-            # phase 3: portfolio
+            # phase 3: portfolio (the strategy that worked last time for this obligation is tried first)
             if todo:
-                jobs = []
-                state = {}
-                for ob in todo:
-                    st = state[id(ob)] = dict(resolved=False, sat=False, cases={}, open=0)
-                    try:
-                        full = smt.smt2_of(prepare(ctx, ob, rounds))
-                        for be in backends:
-                            jobs.append((id(ob), 'full%d' % rounds, 0, 1, full, timeout, be))
-                            st['open'] += 1
-                        deep = smt.smt2_of(prepare(ctx, ob, rounds + 1))
-                        jobs.append((id(ob), 'full%d' % (rounds + 1), 0, 1, deep, timeout, backends[0]))
-                        st['open'] += 1
-                    except Exception as e:
-                        ctx.notes.append('instantiation failed for %s: %r' % (ob.name, e))
-                    nosum_ok = bool(ctx.registry.sums) and not smt.has_sum(ob.goal, ctx.registry)
-                    if nosum_ok:
-                        try:
-                            txt = smt.smt2_of(prepare(ctx, ob, 1, nosum=True))
-                            jobs.append((id(ob), 'full1/nosum', 0, 1, txt, timeout, backends[0]))
-                            st['open'] += 1
-                        except Exception as e:
-                            ctx.notes.append('instantiation failed for %s: %r' % (ob.name, e))
-                    variants = [(cr, False) for cr in range(1, rounds + 1)] + ([(1, True)] if nosum_ok else [])
-                    for (crounds, ns) in variants:
-                        try:
-                            cases = split_cases(ctx, ob, crounds, nosum=ns)
-                        except Exception as e:
-                            ctx.notes.append('split_cases failed for %s: %r' % (ob.name, e))
-                            cases = None
-                        if cases:
-                            strat = 'cases%d/inst%d%s' % (len(cases), crounds, '/nosum' if ns else '')
-                            st['cases'][strat] = [None] * len(cases)
-                            for k, cs in enumerate(cases):
-                                jobs.append((id(ob), strat, k, len(cases), smt.smt2_of(cs), timeout, backends[0]))
-                                st['open'] += 1
+                hints = load_strategy_hints()
+                keys = obligation_keys(obligations)
 
-                def all_done():
-                    return all(s['resolved'] for s in state.values())
-                for (oid, strat, part, nparts, st_, secs, be) in run_jobs(pool, jobs, all_done):
-                    ob = byid[oid]
-                    st = state[oid]
-                    st['open'] -= 1
-                    if st['resolved']:
-                        continue
-                    ob.seconds += secs
-                    if strat.startswith('full'):
-                        if st_ == 'sat' and 'nosum' in strat:
-                            st_ = 'unknown'   # a sliced VC cannot refute
-                        if st_ == 'unsat':
-                            ob.status, ob.backend = 'discharged', '%s/%s' % (be, strat)
+                def build(ob, only=None):
+                    """list of (strat, [texts], backend, refutes)"""
+                    out = []
+                    nosum_ok = bool(ctx.registry.sums) and not smt.has_sum(ob.goal, ctx.registry)
+                    deep_r = max(rounds + 1, getattr(ob, 'min_rounds', 0))
+                    plan = [('full%d' % rounds, 'full', rounds, False, be) for be in backends]
+                    plan.append(('full%d' % deep_r, 'full', deep_r, False, backends[0]))
+                    plan.append(('full%d/nra' % deep_r, 'full', deep_r, False, 'z3py-nra'))
+                    if nosum_ok:
+                        plan.append(('full1/nosum', 'full', 1, True, backends[0]))
+                    for cr in range(1, rounds + 2):
+                        plan.append(('cases/inst%d' % cr, 'cases', cr, False, backends[0]))
+                    plan.append(('cases/inst%d/nra' % (rounds + 1), 'cases', rounds + 1, False, 'z3py-nra'))
+                    if nosum_ok:
+                        plan.append(('cases/inst1/nosum', 'cases', 1, True, backends[0]))
+                    cache = {}
+                    for (strat, kind, r, ns, be) in plan:
+                        if only is not None and strat != only:
+                            continue
+                        try:
+                            if (kind, r, ns) not in cache:
+                                if kind == 'full':
+                                    cache[(kind, r, ns)] = [smt.smt2_of(prepare(ctx, ob, r, nosum=ns))]
+                                else:
+                                    cs = split_cases(ctx, ob, r, nosum=ns)
+                                    cache[(kind, r, ns)] = [smt.smt2_of(c) for c in cs] if cs else None
+                            texts = cache[(kind, r, ns)]
+                        except Exception as e:
+                            ctx.notes.append('strategy %s failed for %s: %r' % (strat, ob.name, e))
+                            texts = None
+                        if texts:
+                            out.append((strat, texts, be, kind == 'full' and not ns and be != 'z3py-nra' and r == deep_r))
+                    return out
+
+                def run_wave(obs, only_hint):
+                    jobs = []
+                    state = {}
+                    for ob in obs:
+                        st = state[id(ob)] = dict(resolved=False, sat=False, parts={}, open=0)
+                        for (strat, texts, be, refutes) in build(ob, hints.get(keys[id(ob)]) if only_hint else None):
+                            st['parts'][strat] = [None] * len(texts)
+                            st.setdefault('refutes', {})[strat] = refutes
+                            for k, txt in enumerate(texts):
+                                jobs.append((id(ob), strat, k, len(texts), txt, timeout, be))
+                                st['open'] += 1
+                        if st['open'] == 0:
                             st['resolved'] = True
-                        elif st_ == 'sat' and strat == 'full%d' % (rounds + 1):
-                            st['sat'] = '%s/%s' % (be, strat)
-                    else:
-                        st['cases'][strat][part] = st_
-                        if all(x == 'unsat' for x in st['cases'][strat]):
-                            ob.status, ob.backend = 'discharged', '%s/%s' % (be, strat)
-                            st['resolved'] = True
-                    if not st['resolved'] and st['open'] == 0:
-                        st['resolved'] = True
-                        if st['sat']:
-                            ob.status, ob.backend = 'refuted', st['sat']
-                        else:
-                            ob.status, ob.backend = 'undecided', 'all-unknown'
-                for ob in todo:
-                    if ob.status is None:
-                        st = state[id(ob)]
-                        if st['sat']:
-                            ob.status, ob.backend = 'refuted', st['sat']
-                        else:
-                            ob.status, ob.backend = 'undecided', 'all-unknown'
+
+                    def all_done():
+                        return all(s_['resolved'] for s_ in state.values())
+                    if jobs:
+                        for (oid, strat, part, nparts, st_, secs, be) in run_jobs(pool, jobs, all_done):
+                            ob = byid[oid]
+                            st = state[oid]
+                            st['open'] -= 1
+                            if st['resolved']:
+                                continue
+                            ob.seconds += secs
+                            st['parts'][strat][part] = st_
+                            if all(x == 'unsat' for x in st['parts'][strat]):
+                                ob.status, ob.backend = 'discharged', '%s/%s' % (be, strat)
+                                ob.strategy = strat
+                                st['resolved'] = True
+                            elif st_ == 'sat' and st['refutes'].get(strat):
+                                st['sat'] = '%s/%s' % (be, strat)
+                            if not st['resolved'] and st['open'] == 0:
+                                st['resolved'] = True
+                    return state
+
+                hinted = [ob for ob in todo if keys[id(ob)] in hints]
+                if hinted:
+                    run_wave(hinted, True)
+                rest = [ob for ob in todo if ob.status is None]
+                if rest:
+                    # the pool may still be busy with abandoned jobs of the first wave: use a fresh one
+                    pool.terminate()
+                    pool.join()
+                    pool = mp.Pool(procs)
+                    state = run_wave(rest, False)
+                    for ob in rest:
+                        if ob.status is None:
+                            st = state[id(ob)]
+                            if st['sat']:
+                                ob.status, ob.backend = 'refuted', st['sat']
+                            else:
+                                ob.status, ob.backend = 'undecided', 'all-unknown'
+                save_strategy_hints({keys[id(o)]: o.strategy for o in todo if getattr(o, 'strategy', None)})
         finally:
             pool.terminate()
             pool.join()
